@@ -374,11 +374,19 @@ def main(argv=None):
     # histories run the implementation while generating) or at eight times the quick size of the slowest check
     t_gen, escalated = time.time(), gen_tier != tier
     budget = float(os.environ.get("VERIF_ESCALATE_SECONDS", "40"))
-    for c in prop.gen(rnd, gen_tier):
+    # the tier's own mix always comes first and complete; an escalated quick run then goes on drawing from the thorough
+    # generator (its own stream) until the time budget or the cap is reached.  (Round 3 of the seeded changes: drawing the
+    # thorough generator INSTEAD, cut off at the cap, had replaced C06's random and near-boundary cases by enumerated
+    # families only, and the escalated run saw less than the plain one.)
+    for c in prop.gen(rnd, tier):
         cases.append(c)
-        if escalated and (len(cases) % 500 == 0) and (time.time() - t_gen > budget or len(cases) >= getattr(prop, "ESCALATE_MAX", 150000)):
-            log(f"[{pid}] escalated sampling stopped after {len(cases)} cases ({time.time() - t_gen:.0f} s)")
-            break
+    if escalated:
+        rnd2 = random.Random(seed * 1000003 + int(pid[1:]) + 7919)
+        for c in prop.gen(rnd2, gen_tier):
+            cases.append(c)
+            if (len(cases) % 500 == 0) and (time.time() - t_gen > budget or len(cases) >= getattr(prop, "ESCALATE_MAX", 150000)):
+                log(f"[{pid}] escalated sampling stopped after {len(cases)} cases ({time.time() - t_gen:.0f} s)")
+                break
     log(f"[{pid}] {len(cases)} cases ({ncorpus} corpus)")
 
     encF, encX = Enc("F"), Enc("X")
